@@ -5,6 +5,7 @@ package harness
 import (
 	"fmt"
 	"runtime/debug"
+	"time"
 
 	"github.com/cbehopkins/gkvlite"
 )
@@ -98,3 +99,6 @@ const (
 	ClassFault = 3
 	ClassCrash = 4
 )
+
+func Quiesce()            { time.Sleep(2 * time.Millisecond) }
+func LiveLibThreads() int { return 0 }
